@@ -429,10 +429,12 @@ impl Boudot2000RangeProof {
             * Integer::from(h.pow_mod_ref(&r_b_2, n).unwrap()))
             % n;
 
+        // the square roots are below sqrt(2^T (b - a)) < bound: their blinding is sized for that public bound, so the
+        // size of the response does not depend on the value
         let proof_of_square_a =
-            Self::proof_of_square::<H>(&x_a_1, &r_a_1, g, h, &E_a_1, l, t, b, s, s1, s2, n);
+            Self::proof_of_square::<H>(&x_a_1, &r_a_1, g, h, &E_a_1, l, t, &bound, s, s1, s2, n);
         let proof_of_square_b =
-            Self::proof_of_square::<H>(&x_b_1, &r_b_1, g, h, &E_b_1, l, t, b, s, s1, s2, n);
+            Self::proof_of_square::<H>(&x_b_1, &r_b_1, g, h, &E_b_1, l, t, &bound, s, s1, s2, n);
         let proof_large_i_a =
             Self::proof_large_interval_specific::<H>(&x_a_2, &r_a_2, g, h, t, l, &bound, s, n, T);
         let proof_large_i_b =
